@@ -24,6 +24,7 @@ def primLabel : Prim → String
   | .sync f => "sync-" ++ extName f
   | .create f => "create-" ++ extName f
   | .remove f => "remove-" ++ extName f
+  | .truncate f _ => "truncate-" ++ extName f
 
 def iterStr (r : List Bytes × IterEnd) : String :=
   joinSp ([match r.2 with | .ok => "ok" | .err => "err" | .fault => "panic", toString r.1.length] ++ r.1.map toHex)
